@@ -1,4 +1,5 @@
 # C09 - results are a function of workspace and configuration, not of scheduling (DESIGN 5, C09)
+import os
 import vlib
 from vlib import Leg, hexs
 from c18 import Runner18, hx, gen_tree, DIRS, BASES, subset_canon
@@ -744,6 +745,121 @@ def entryorder_describe(c):
         return c[:200]
 
 
+# ----------------------------------------------------------------------------- c09.manyrefs
+def ncpu():
+    try:
+        return len(os.sched_getaffinity(0))          # what runtime.NumCPU() reports on Linux
+    except Exception:
+        return os.cpu_count() or 4
+
+
+def gen_manyrefs(rng, tier):
+    """references / rename of a GLOBAL over a workspace with MORE files than the reference search has workers
+    (runtime.NumCPU()+2 goroutines, check_lsp_references.go): 3*(NumCPU+2) .. files, so that every worker handles
+    several files one after the other; the global (a variable or a function) is defined in one file and read in most of
+    the others (several occurrences per file, inside functions, some files without any, some with a LOCAL of the same name
+    that is not an occurrence). The answer over fresh starts (GOMAXPROCS default / 2 / 1) must be the singleton AND equal
+    the exact occurrence set the generator knows (seeded/C09-7: a worker re-used its result object, every later file
+    of a worker was answered with the earlier files' locations too - a superset that differs between runs). Controls:
+    a workspace with at most NumCPU+2 files. The reference answer is computed here (no extracted model: the model's
+    statement for this request is "a function of the workspace"; WHICH function = the occurrences of the name that the
+    binder resolves to the global, property C06 / C11)."""
+    n = {"quick": 3, "thorough": 30, "search": 2}[tier]
+    nreps = {"quick": 3, "thorough": 6, "search": 3}[tier]
+    out = []
+    for k in range(n):
+        workers = ncpu() + 2
+        nfiles = rng.randrange(3 * workers, 4 * workers + 1) if k != 2 else rng.randrange(3, workers + 1)
+        name = rng.choice(["shared_g", "Counter", "gconf", "zz_total"])
+        isfun = rng.random() < 0.4
+        dirs = ["", "", "lib/", "src/mod/", "z/"]
+        fnames = []
+        for i in range(nfiles):
+            fnames.append("%s%s_%02d.lua" % (rng.choice(dirs), rng.choice(["f", "mod", "u", "A"]), i))
+        rng.shuffle(fnames)
+        deff = fnames[0]
+        occ = []                                           # (file, line, col)
+        files = {}
+        for f in fnames:
+            lines = []
+
+            def use(prefix, suffix):
+                lines.append(prefix + name + suffix)
+                occ.append((f, len(lines) - 1, len(prefix)))
+            for _ in range(rng.randrange(0, 3)):
+                lines.append(rng.choice(["local t%d = { %d }" % (len(lines), len(lines)), "-- remark", "", "print(%d)" % len(lines)]))
+            if f == deff:
+                if isfun:
+                    use("function ", "(a, b) return a end")
+                else:
+                    use("", " = %d" % rng.randrange(100))
+            x = rng.random()
+            if f != deff and x < 0.12:
+                pass                                       # a file without the name
+            elif f != deff and x < 0.22:                   # a local of the same name: not an occurrence of the global
+                lines += ["local function shadow_%d()" % len(lines), "  local %s = 1" % name, "  return %s" % name, "end"]
+            else:
+                for _ in range(rng.randrange(1, 4)):
+                    y = rng.randrange(5)
+                    if isfun:
+                        if y == 0:
+                            use("local r%d = " % len(lines), "(1, 2)")
+                        elif y == 1:
+                            lines.append("local function w%d(p)" % len(lines))
+                            use("  return ", "(p, p)")
+                            lines.append("end")
+                        elif y == 2:
+                            use("print(", "(3, 4))")
+                        elif y == 3:
+                            use("local alias%d = " % len(lines), "")
+                        else:
+                            use("", "(5, 6)")
+                    else:
+                        if y == 0:
+                            use("local r%d = " % len(lines), " + 1")
+                        elif y == 1:
+                            lines.append("local function w%d(p)" % len(lines))
+                            use("  return p + ", "")
+                            lines.append("end")
+                        elif y == 2:
+                            use("print(", ")")
+                        elif y == 3:
+                            use("if ", " then print(1) end")
+                        else:
+                            use("local t%d = { v = " % len(lines), " }")
+            for _ in range(rng.randrange(0, 2)):
+                lines.append("print(%d)" % len(lines))
+            files[f] = "\n".join(lines) + "\n"
+        locs = sorted("%s@%d:%d-%d:%d" % (f, l, c, l, c + len(name)) for f, l, c in occ)
+        newname = "renamed_%d" % k
+        rens = sorted("%s=>%s" % (x, hx(newname)) for x in locs)
+        order = list(fnames)
+        rng.shuffle(order)
+        asks = [occ[0]] + rng.sample(occ[1:], min(2, len(occ) - 1))
+        steps, exp = [], []
+        for f, l, c in asks:
+            fi = order.index(f)
+            steps += ["S:open:%d" % fi, "S:refs:%d:%d:%d" % (fi, l, c + rng.randrange(0, len(name)))]
+            exp.append("{refs=[%s]}" % ",".join(locs))
+        f, l, c = asks[-1]
+        steps += ["S:rename:%d:%d:%d:%s" % (order.index(f), l, c, hx(newname)), "S:refs:%d:%d:%d" % (order.index(f), l, c)]
+        exp += ["{rename=[%s]}" % ",".join(rens), "{refs=[%s]}" % ",".join(locs)]
+        out.append("%d %s %s %s" % (nreps, ";".join(exp), " ".join("F:%s:%s" % (hx(g), hx(files[g])) for g in order), " ".join(steps)))
+    return out
+
+
+def manyrefs_describe(c):
+    try:
+        dec = lambda h: bytes.fromhex(h).decode("latin1")
+        f = c.split(" ")
+        fs = [x.split(":") for x in f[2:] if x.startswith("F:")]
+        st = [x for x in f[2:] if x.startswith("S:")]
+        return ("%d files, steps %s, expected %s | " % (len(fs), " ".join(st), f[1][:400])) + \
+            " || ".join(dec(x[1]) + ": " + dec(x[2]).replace("\n", " / ") for x in fs)[:1500]
+    except Exception:
+        return c[:200]
+
+
 class Runner09(Runner18):
     def eval_cases(self, leg, cases):
         if getattr(leg, "py_reference", False):
@@ -766,12 +882,13 @@ LEGS = [
     Leg("c09.projtable", gen_projtable, describe=projtable_describe, per_case_s=20, jobs=6,
         nontrivial=lambda c: True),
     Leg("c09.entryorder", gen_entryorder, describe=entryorder_describe, per_case_s=90, jobs=4, nontrivial=lambda c: True),
+    Leg("c09.manyrefs", gen_manyrefs, describe=manyrefs_describe, per_case_s=60, jobs=3, nontrivial=lambda c: True),
     Leg("c09.paramdefault", gen_paramdefault, describe=lambda c: "diagnostics over fresh starts | " + srvrep_describe(c)[:600], per_case_s=60, jobs=4,
         nontrivial=lambda c: True, deciding=PARAM_DEFAULT_FIXED),
 ]
 for l in LEGS[1:]:
     l.set_valued = True
-LEGS[-1].py_reference = LEGS[-2].py_reference = True
+LEGS[-1].py_reference = LEGS[-2].py_reference = LEGS[-3].py_reference = True
 
 TRUSTED = vlib.TRUSTED_COMMON + [
     "modelled, tied by correspondence: AnalysisThird.JudgeShouldInsertGlobalInfo / InsertThirdGlobalGMaps / FindThirdGlobalGInfo, the loop of generateAllGlobalMaps (hook VerifC09GenerateAllGlobalMaps runs the real one), calcMatchStrScore / GetBestMatchReferFile",
@@ -779,6 +896,7 @@ TRUSTED = vlib.TRUSTED_COMMON + [
     "project mode (luahelper.json with ProjectFiles), modelled: SingleProjectResult.InsertGlobalGMaps / FindGlobalGInfo and the three loops of checkOneProject over second.AllFiles (project_merge_ws, member_provider), findMaxSecondProject (pick_project); tied by leg c09.projtable: go-to-definition of the REAL server (one fresh process per run) on names several project files define = the singleton the model computes; the file set of a project (scanProjectAllFiles) is computed by the driver as the closure of the entry under the generated references; the driver also supplies the columns of the definitions",
     "not modelled, guarded by the repetition leg c09.srvrep only (singleton demanded): class merge, symbol / references cut, the concurrent scoring of workspace symbols (several files, more than 200 symbols, non-empty queries repeated on the same and on fresh servers), hover / references / diagnostics in project mode; sessions with several project entry files AND members added to a global table by other files (finding C09-project-shared-members, fixed ebeeeaa) are guarded by the repetition leg only",
     "leg c09.entryorder (several project entry files, the project that comes first by entry name much slower than the others: the members that files of different projects add to a shared global table; definition on T.f over fresh starts under GOMAXPROCS default / 2 / 1): the reference answer - the adder of the first project in sort.Strings order of the entry names - is computed by the generator in checks/c09.py, NOT by the extracted model (Merge.member_provider is the provider inside one project; across projects = find over the concatenation of the projects' sorted file lists in sorted entry order: no theorem)",
+    "leg c09.manyrefs (references / rename of a global over 3..4 times more files than the reference search has worker goroutines, runtime.NumCPU()+2, plus a control workspace below that number; fresh starts under GOMAXPROCS default / 2 / 1): singleton demanded AND equal to the exact occurrence set; that reference set - every read / call / definition of the name outside scopes that declare a local of the same name - is computed by the generator in checks/c09.py, NOT by the extracted model (the binder models of C06 / C11 give it for their own workspaces); the worker count is taken from the affinity mask of the checking process",
     "leg c09.paramdefault (several entry files calling the same functions with fewer arguments than parameters; the lazily memoised FuncInfo.ParamDefaultNum is shared by the project goroutines): diagnostics identical over fresh starts; reference {STABLE} by the generator; the leg decides once PARAM_DEFAULT_FIXED is set (fixes/C09-param-default-race.diff applied)",
     "c09.project: whole analyses repeated in one process under GOMAXPROCS 1/2/16 (map seeds are per iteration in Go); the model's prediction is 'every workspace is stable' (tie workspaces, members added to a global table from several files and equally scored module candidates included): the per-file analyses themselves are not modelled here",
 ]
